@@ -66,6 +66,18 @@ PROPS = {
             "that is the family's density over the reals (exp-of-polynomial domain) and a tail routine using that family's R; "
             "(3) structural rules inside `ziggurat` (index mask/shift/bounds, layer-index agreement, tail entry). "
             "Not decided: the sampled law of StandardNormal/Exp1 itself."),
+    "C12": ("rules_c12", "other",
+            "Decided (algebraic clauses): for UnitCircle, UnitSphere, UnitDisc, UnitBall x f32/f64 — the proposal is k fresh draws per iteration "
+            "from Uniform::new(-1, 1); the one exit of the rejection loop is taken exactly when the squared norm of the proposal is below 1; "
+            "the returned array is the documented map (accepted point; von Neumann; Marsaglia) up to the symmetries of the proposal and its "
+            "squared norm is identically 1 (circle, sphere) resp. the tested squared norm (disc, ball). These are the premises of the classical "
+            "uniformity proofs. Not decided: the rounding error of the norm, the singular proposal (C03), the theorems themselves."),
+    "C13": ("rules_c13", "other",
+            "Decided (necessary clauses, not the f32 enumeration itself): for Cauchy, Pareto, Weibull, Gumbel, Frechet, Triangular x f32/f64, "
+            "sample() has no loop and exactly one RNG draw site, and the returned value — as a symbolic term over that draw and the "
+            "constructor's arguments — is identical over the reals to the documented quantile function Q(u), its mirror Q(1-u) or (Cauchy) "
+            "tan(pi u); Triangular's branch condition and both pieces are checked. Not decided: the 2^-24 resolution bound of the f32 "
+            "evaluation (rounding), which needs the enumeration the property describes."),
     # id: (module, level, explanation)
     "C14": ("rules_c14", "proof",
             "Decided: type-and-effect purity of every crate-local function (sampling, constructors, Clone, PartialEq, "
